@@ -19,6 +19,7 @@ CONSTANTS NC,        \* number of load cases (ids 1..NC; id = the casenum column
           NR,        \* number of rows
           Form,      \* "two" | "one" | "frf" (two-column with min = -max at the same abscissa)
           Alpha,     \* name of the option alphabet
+          XLess,     \* cases that carry NO abscissae (mm.ext_x = None: add_maxmin without x-values, PSD events, calc_ext results)
           Export
 
 NaN == 99       \* integer sentinel outside every value alphabet (TLC cannot compare ints with strings)
@@ -40,8 +41,9 @@ Options ==
     [] Alpha = "one2"  -> Diag({-2, 1, 3})
     [] Alpha = "one2n" -> Diag({-2, 1}) \cup {<<NaN, NaN>>}
 
-XMax(c) == 10 * c + 1
-XMin(c) == IF Form \in {"one", "frf"} THEN 10 * c + 1 ELSE 10 * c + 2
+\* abscissae; a case without abscissae contributes NaN: an extreme it holds has no known abscissa, whoever came before or after
+XMax(c) == IF c \in XLess THEN NaN ELSE 10 * c + 1
+XMin(c) == IF c \in XLess THEN NaN ELSE IF Form \in {"one", "frf"} THEN 10 * c + 1 ELSE 10 * c + 2
 
 VARIABLES data, added, ext, extx, maxcase, mincase, mx, mn
 
@@ -128,5 +130,10 @@ PerCase == \A r \in Rows : \A c \in AddedSet : mx[r][c] = data[c][r][1] /\ mn[r]
 \* the value reached does not depend on which of two cases was added first.
 TypeOK == Len(added) <= NC
 
-ExportOK == Export => PrintT(<<"EXT", Form, data, added, ext, extx, maxcase, mincase, mx, mn>>)
+\* mixing cases with and without abscissae: an abscissa is stored exactly for the extremes held by a case that has one
+AbscissaKnownIffHolderHasOne == ~First =>
+  \A r \in Rows : /\ (~IsNaN(ext[r][1]) => (IsNaN(extx[r][1]) <=> maxcase[r] \in XLess))
+                  /\ (~IsNaN(ext[r][2]) => (IsNaN(extx[r][2]) <=> mincase[r] \in XLess))
+
+ExportOK == Export => PrintT(<<"EXT", Form, data, added, ext, extx, maxcase, mincase, mx, mn, XLess>>)
 =============================================================================
